@@ -228,6 +228,9 @@ func (r *Run) Finish(rule string, minNontrivial int, assumptions ...string) {
 	r.mu.Lock()
 	defer r.mu.Unlock()
 	known := loadKnown()
+	if assumptions == nil {
+		assumptions = []string{}
+	}
 	var lines []string
 	unknownViol := 0
 	knownSeen := 0
